@@ -35,7 +35,8 @@ ASSUME = {
             'Sock.tla proves the framing argument for every segmentation of small abstract streams (TLC, incl. liveness of receiver termination)'],
     'C20': ['real loopback / multicast sockets in real time: responses at least max(8 ms, timeout/3) before the deadline must be included, responses sent later than timeout + 25 ms must not; in between either is accepted',
             'Discover: requests are not observable by a responder on the same host (multicast loopback is a sender-side option that Discover switches off), so OneRequest / DescribeHpai are judged for Describe only; if the group cannot be joined the discovery half is skipped',
-            'Lookup.tla (timed automaton of both calls) is model-checked exhaustively for up to 3 arrivals'],
+            'Lookup.tla (timed automaton of both calls) is model-checked exhaustively for up to 3 arrivals',
+            'time bound: timeout + 25 ms + the set-up the harness observed (/proc/net/igmp shows the membership) + twice the lateness of a 1 ms sleeper; an overrun is a verdict when the same scenario overruns three times in a row (socket set-up / multicast join / close are system calls with latency spikes of 10..70 ms on this machine that no sleeper measures)'],
     'C18': ['address text is tokenised by the harness (split on the separator, strconv.Atoi); lexical variants that Atoi itself accepts ("+5", "007") are outside the token model'],
 }
 
